@@ -16,6 +16,7 @@ import random
 
 from .. import vloop, ncpsim, appharness
 from ..runner import Acc
+from .. import logmode
 from ..contracts import install_status_contract
 
 PROPERTY = "C19"
@@ -58,7 +59,7 @@ def run_shard(desc) -> Acc:
     import bellows.zigbee.application as A
     from bellows.exception import EzspError
 
-    logging.disable(logging.CRITICAL)
+    logmode.apply(desc)
     acc = Acc()
     install_status_contract(acc)
     V = desc["version"]
